@@ -24,7 +24,12 @@ import (
 type c17Case struct {
 	Cfg  sut.Config `json:"cfg"`
 	Spec PipeSpec   `json:"spec"`
+	// Gap: slots 16000-16383 are served by nobody and the configured password - like some of the AUTH arguments
+	// and keys of the case - hashes into that range: AUTH is still answered by the proxy itself
+	Gap bool `json:"gap_topology,omitempty"`
 }
+
+func c17GapWord(slot int, w string) string { return refmodel.KeyInSlot(slot, w) }
 
 var c17Limits = []int{64, 200, 4096, 70000, 0}
 
@@ -78,7 +83,13 @@ func c17GenName(t *rapid.T) []byte {
 
 func c17Gen(t *rapid.T) c17Case {
 	var c c17Case
-	limit := rapid.SampledFrom(shardPick(c17Limits, 3)).Draw(t, "limit")
+	// per shard: two of the limits, plus one fixture with the default limit, a gap in the slot space and a
+	// password that hashes into the gap (three proxies stay alive per shard)
+	limit := rapid.SampledFrom(shardPick(c17Limits, 2)).Draw(t, "limit")
+	c.Gap = rapid.IntRange(0, 4).Draw(t, "gap") == 0
+	if c.Gap {
+		limit = 0
+	}
 	c.Cfg = sut.Config{MaxLen: limit}
 	eff := limit
 	if eff == 0 {
@@ -159,6 +170,16 @@ func c17Gen(t *rapid.T) c17Case {
 			cs.Reqs = append(cs.Reqs, r)
 		}
 	}
+	if c.Gap {
+		c.Cfg.Password = c17GapWord(16200, "pw")
+		na := rapid.IntRange(1, 3).Draw(t, "nauth")
+		for i := 0; i < na; i++ {
+			arg := rapid.SampledFrom([]string{c.Cfg.Password, c.Cfg.Password, c17GapWord(16300, "no"), "no", ""}).Draw(t, "autharg")
+			r := Req{Name: genCaseName("auth").Draw(t, "cased"), Args: []Bin{Bin(arg)}}
+			// takes the place of a request (positions keep their meaning for the backend-side check)
+			cs.Reqs[rapid.IntRange(0, len(cs.Reqs)-1).Draw(t, "authat")] = r
+		}
+	}
 	total := 0
 	for i := range cs.Reqs {
 		total += len(cs.Reqs[i].Encode())
@@ -169,7 +190,11 @@ func c17Gen(t *rapid.T) c17Case {
 }
 
 func c17Exec(c *c17Case) []Discrepancy {
-	f := getFixture("C17", c.Cfg, 3, 0)
+	variant := ""
+	if c.Gap {
+		variant = "gap"
+	}
+	f := getFixtureV("C17", c.Cfg, 3, 0, variant)
 	// (no nonce stamping here: it would move the request sizes off the boundaries they were built for)
 	ds := pipeRunCompare("C17", f, &c.Cfg, &c.Spec, 0)
 	if len(ds) == 0 {
@@ -217,6 +242,14 @@ func c17Backend(f *Fixture, c *c17Case) []Discrepancy {
 			continue
 		}
 		for _, k := range keys {
+			if f.Owners[refmodel.KeySlot(k)].Master < 0 {
+				// nobody serves the slot: answered with an error by the proxy, nothing to forward
+				if counts[string(k)] != 0 {
+					ds = append(ds, disc("C17/rejected-request-forwarded", "request %d (%s) is for a slot nobody serves but its key reached a backend", i+1, q(r.Encode())))
+					return ds
+				}
+				continue
+			}
 			if counts[string(k)] != 1 {
 				ds = append(ds, disc("C17/served-request-not-forwarded-once", "request %d (%s) is served by the reference but its key reached a backend %d times", i+1, q(r.Encode()), counts[string(k)]))
 				return ds
@@ -248,6 +281,10 @@ func c17Classify(c *c17Case) (bool, []string) {
 		if size >= limit-1 && size <= limit+1 {
 			nt = true
 			cls = append(cls, "size-at-boundary")
+		}
+		if c.Gap && r.lname() == "auth" && len(r.Args) == 1 && refmodel.KeySlot(r.Args[0]) >= 16000 {
+			nt = true
+			cls = append(cls, "auth-argument-hashes-to-an-unserved-slot")
 		}
 		ln := r.lname()
 		if docs.Supported[ln] {
